@@ -150,6 +150,7 @@ func (j *cacheJanitor[MetadataT]) cleanExpiredEntries() {
 	}
 
 	endCacheSize := j.cacheFns.getCacheSize()
+	verifhook.At("janitor.size.read", endCacheSize)
 	metrics.Global.Cache.BytesCached.Set(endCacheSize)
 	metrics.Global.Cache.BytesCleaned.Add(startCacheSize - endCacheSize)
 
@@ -219,6 +220,7 @@ func (j *cacheJanitor[MetadataT]) evict(maxCacheBytes int64) {
 	}
 
 	endCacheSize := j.cacheFns.getCacheSize()
+	verifhook.At("janitor.size.read", endCacheSize)
 	metrics.Global.Cache.BytesCached.Set(endCacheSize)
 	metrics.Global.Cache.BytesCleaned.Add(startCacheSize - endCacheSize)
 
